@@ -481,8 +481,8 @@ def beInit (h : α) (Y : Mat α) (sc : Scratch α) : BEState α :=
   { Yn1 := Y, Yn := Y, t := 0, h, nSucc := 0, nFail := 0, iterations := 0, stats := {},
     status := .notYetCalled, done := false, sc, trace := [] }
 
-/-- the first `H` of the source: `h_start == 0 ? time_step : h_start` (not clipped to `time_step`) -/
-def beInitialH (T : α) : α := if o.eq p.hstart 0 then T else p.hstart
+/-- the first `H` of the source: `h_start == 0 ? time_step : std::min(h_start, time_step)` -/
+def beInitialH (T : α) : α := if o.eq p.hstart 0 then T else cmin o p.hstart T
 
 theorem beSolve_eq (Y : Mat α) (sc : Scratch α) (fuel : Nat) :
     beSolve o s p kc atol rtol T Y sc fuel =
@@ -612,8 +612,16 @@ theorem BETimeInv_step (hred : ∀ x ∈ p.reductions, 0 ≤ x) (r : BEState K) 
       exact min_le_right _ _
 
 include ho in
-theorem beInitialH_eq : beInitialH o p T = if p.hstart = 0 then T else p.hstart := by
-  unfold beInitialH; rw [ho.eq]; simp only [decide_eq_true_eq]
+theorem beInitialH_eq : beInitialH o p T = if p.hstart = 0 then T else min p.hstart T := by
+  unfold beInitialH; rw [ho.eq, ho.cmin_eq]; simp only [decide_eq_true_eq]
+
+include ho in
+/-- the first `H` is clipped to the time step: `0 ≤ H ≤ T` as soon as `0 < T`, `0 ≤ h_start` -/
+theorem beInitialH_bounds (hT : 0 < T) (hs0 : 0 ≤ p.hstart) :
+    0 ≤ beInitialH o p T ∧ beInitialH o p T ≤ T := by
+  rw [beInitialH_eq ho]; split
+  · exact ⟨le_of_lt hT, le_refl _⟩
+  · exact ⟨le_min hs0 (le_of_lt hT), min_le_right _ _⟩
 
 theorem BETimeInv_init (hT : 0 < T) (h : K) (h0 : 0 ≤ h) (hle : h ≤ T) (Y : Mat K) (sc : Scratch K) :
     BETimeInv T (beInit h Y sc) :=
